@@ -53,6 +53,14 @@ def body(chk):
         level = ("1.5", "1.1", "3.1")[j % 3]
         cases.append(dict(level=level, seed=chk.seed + 3000 + j, k=j, random_classes=True, files=("IMG",),
                           images=(("VV", None, 1 + j % 7, 1 + j % 3),), fs="local", rpc=1 + j % 5, tag=f"random{j}"))
+    # an image whose per-file fields (update flags, channel ids, ...) CHANGE along its lines -- the reader surfaces the first line's value --
+    # followed, in the same product and in the same process, by ordinary images: their constants still appear once, as attributes.
+    # (interleaved so that every worker process meets such an image before ordinary ones)
+    vary = [dict(level=("1.1", "1.5")[j % 2], seed=chk.seed + 95 + j, k=None, files=("IMG",), images=(("HH", None, 4, 2), ("HV", None, 3, 1)), fs="local", vary_first=True,
+                 tag=f"varying-constants{j}") for j in range(8)]
+    step = max(1, len(cases) // len(vary))
+    for j, v in enumerate(vary):
+        cases.insert(j * (step + 1), v)
     results, total = lc.replay(chk, cases, "image", lambda c: f"{c['level']}:{c['tag']}")
     ok = next(r for r in results if r["open"] == "ok")
     chk.sample({"level": ok["case"]["level"], "case": ok["case"]["tag"], "image_fields_compared": ok["n"], "mismatches": ok["bad"][:2]})
